@@ -8,7 +8,8 @@ import RV.C04.Types
   OPTIONAL evaluate their right side under each left solution, `forget` / `remember` trim
   them around filters, BIND, MINUS and the OPTIONAL re-check).
 
-  The model is of the code AFTER the `fix:` commits of branch fix-C04 (see design.d/C04.md).
+  The model is of the code on branch fix-C04 = /repo main (which carries the SPARQL repairs of the C15, C10 and C08
+  builders) + the four C04 repairs on top (see design.d/C04.md).
   The algebra tree is rdflib's own (`translateQuery`), annotations included — the harness
   ships `prepareQuery(text).algebra`; translation is therefore not modelled here.
 -/
@@ -96,7 +97,7 @@ def evalPart (D : Dataset) (g : Graph) (μ0 : Row n) : Alg → List (Row n)
   | .leftJoin a b e p1vars p2vars =>
     (evalPart D g μ0 a).flatMap fun x =>
       if ((evalPart D g x b).filter fun y =>
-            isTrue (evalExpr D g (y.forget μ0 (p1vars.getD [] ++ p2vars)) e)).isEmpty then
+            isTrue (evalExpr D g (y.forget μ0 (ownVars p1vars p2vars)) e)).isEmpty then
         -- not ok: the re-check without the pushed-in bindings
         match p1vars with
         | none => [x]
@@ -104,18 +105,18 @@ def evalPart (D : Dataset) (g : Graph) (μ0 : Row n) : Alg → List (Row n)
           if (evalPart D g (x.restrict vs) b).any (fun y => isTrue (evalExpr D g y e)) then [] else [x]
       else
         ((evalPart D g x b).filter fun y =>
-            isTrue (evalExpr D g (y.forget μ0 (p1vars.getD [] ++ p2vars)) e)).map fun y => y.merge x
+            isTrue (evalExpr D g (y.forget μ0 (ownVars p1vars p2vars)) e)).map fun y => y.merge x
   -- evalFilter
   | .filter e p vars noIso =>
     (evalPart D g μ0 p).filter fun c =>
       isTrue (evalExpr D g (if noIso then c else c.forget μ0 vars) e)
   -- evalUnion
   | .union a b => evalPart D g μ0 a ++ evalPart D g μ0 b
-  -- evalMinus
-  | .minus a b p1vars =>
+  -- evalMinus: right side under `ctx.clean()`, each side compared on the variables it binds itself
+  | .minus a b p1vars p2vars =>
     (evalPart D g μ0 a).filter fun x =>
-      (evalPart D g Row.empty b).all fun y =>
-        !((x.forget μ0 p1vars).compat y) || (x.forget μ0 p1vars).disjoint y
+      ((evalPart D g Row.empty b).map fun y => y.rememberOpt p2vars).all fun y =>
+        !((x.rememberOpt p1vars).compat y) || (x.rememberOpt p1vars).disjoint y
   -- evalExtend
   | .extend p v e vars =>
     (evalPart D g μ0 p).filterMap fun c =>
@@ -136,8 +137,8 @@ def evalPart (D : Dataset) (g : Graph) (μ0 : Row n) : Alg → List (Row n)
       | .const _ => []
   -- evalMultiset / evalValues
   | .values vars rows => rows.filterMap fun r => valuesRow vars r μ0
-  -- evalMultiset (sub-select) / evalProject
-  | .project p pv => (evalPart D g (μ0.restrict pv) p).map fun r => (r.restrict pv).merge μ0
+  -- evalMultiset (sub-select): `_join(evalPart(ctx.clean(), Project(p, PV)), [ctx.solution()])`
+  | .project p pv => joinL ((evalPart D g Row.empty p).map (·.restrict pv)) [μ0]
 /-- `Expr.eval(ctx)` for the operators of the fragment; `none` = a `SPARQLError` -/
 def evalExpr (D : Dataset) (g : Graph) (c : Row n) : Expr → Option Term
   | .var v => c.get v
